@@ -72,66 +72,198 @@ def check_realloc_pairing(chk, prog, units, only=None):
     return n
 
 
-# --------------------------------------------------------------------------- L2 unlink effects (doubly linked)
-def _if_chain_arms(f, node):
-    """list of (if-node, arm) for the if statements enclosing node: arm 'then' | 'else'"""
-    res = []
-    child = node
-    for anc in f.ancestors(node):
-        if anc.get("k") == "if":
-            inthen = any(y is child for y in walk(anc["then"])) if anc["then"] is not child else True
-            if anc["then"] is child or any(y is node for y in walk(anc["then"])):
-                res.append((anc, "then"))
-            else:
-                res.append((anc, "else"))
-        child = anc
+# --------------------------------------------------------------------------- helpers shared by the link-effect rules
+def unit_closure(f, stop=r"_item_(new|del|done|init|dup|comp|show|type)$"):
+    """f and the unit-local functions it calls, transitively (the item class's own methods are primitives)"""
+    out = [f]
+    seen = {f.name}
+    work = [f]
+    while work:
+        g = work.pop()
+        for c in X.calls_in(g.body):
+            cn = X.callee_name(c) or ""
+            h = g.unit.functions.get(cn)
+            if h is not None and cn not in seen and not re.search(stop, cn) and h.cfg is not None:
+                seen.add(cn)
+                out.append(h)
+                work.append(h)
+    return out
+
+
+def deleter_params(unit):
+    """{function name: set of parameter indices whose node the function deletes (item_del on it, directly or through
+    another such function)}"""
+    res = {}
+    changed = True
+    while changed:
+        changed = False
+        for f in unit.functions.values():
+            pidx = {p["d"]: i for i, p in enumerate(f.params)}
+            for c in X.calls_in(f.body):
+                cn = X.callee_name(c) or ""
+                args = c["ch"][1:]
+                targets = []
+                if re.search(r"_item_del$", cn) and args:
+                    targets = [args[0]]
+                elif cn in res:
+                    targets = [args[j] for j in res[cn] if j < len(args)]
+                for a in targets:
+                    s_ = X.strip(a)
+                    if s_ is not None and s_.get("k") == "ref" and s_.get("d") in pidx:
+                        if pidx[s_["d"]] not in res.setdefault(f.name, set()):
+                            res[f.name].add(pidx[s_["d"]])
+                            changed = True
     return res
 
 
-def check_unlink_effects(chk, prog, unit, doubly, only=None):
-    u = prog.units[unit]
-    done = {f.name for f in classinfo.functions_in_slot(prog, "done")} | {f.name for f in classinfo.functions_in_slot(prog, "del")}
-    n = 0
-    for f in u.functions.values():
-        if f.name in done or f.name.endswith(("_done", "_del")) or (only is not None and f.name not in only):
+def node_deletions(f, delp):
+    """[(call, deleted expression)] for every place f deletes a node: item_del(E) or helper(.., E, ..) deleting its parameter"""
+    out = []
+    for c in X.calls_in(f.body):
+        cn = X.callee_name(c) or ""
+        args = c["ch"][1:]
+        if re.search(r"_item_del$", cn) and args:
+            out.append((c, args[0]))
+        elif cn in delp:
+            for j in delp[cn]:
+                if j < len(args):
+                    out.append((c, args[j]))
+    return out
+
+
+def link_pointers(f):
+    """{decl: kinds} for locals of pointer-to-link type:  L = &self->head  /  L = &X->next  (the pointer-to-link idiom)"""
+    res = {}
+    for x in walk(f.body):
+        pairs = []
+        if x.get("k") == "assign" and x.get("op") == "=":
+            pairs.append((X.strip(x["ch"][0]), x["ch"][1]))
+        if x.get("k") == "decl":
+            for dcl in x.get("decls", ()):
+                if dcl.get("init") is not None:
+                    pairs.append(({"k": "ref", "d": dcl["d"]}, dcl["init"]))
+        for l, r in pairs:
+            r = X.strip(r)
+            if l.get("k") == "ref" and r is not None and r.get("k") == "un" and r.get("op") == "&":
+                t = X.strip(r["ch"][0])
+                if t.get("k") == "member" and t.get("n") in ("head", "next", "tail", "prev"):
+                    res.setdefault(l["d"], set()).add(t["n"])
+    return res
+
+
+def chain_stores(f):
+    """[(kind, node)] with kind in pred-next / succ-prev / head / tail for every store of f that re-links the chain"""
+    out = []
+    lp = link_pointers(f)
+    for x in walk(f.body):
+        if x.get("k") != "assign" or x.get("op") != "=":
             continue
-        dels = [c for c in X.calls_in(f.body) if own.release_kind(c) == "del" and "item" in (X.callee_name(c) or "")]
+        for l in store_targets(x):
+            if l.get("k") == "member":
+                b = X.strip(l["ch"][0])
+                bself = b.get("k") == "ref" and b.get("rk") == "param" and b.get("pi") == 0
+                if l["n"] == "next" and not bself:
+                    out.append(("pred-next", x))
+                if l["n"] == "prev" and not bself:
+                    out.append(("succ-prev", x))
+                if l["n"] in ("head", "tail") and bself:
+                    out.append((l["n"], x))
+            if l.get("k") == "un" and l.get("op") == "*":
+                t = X.strip(l["ch"][0])
+                if t.get("k") == "ref" and t.get("d") in lp:
+                    for kind in lp[t["d"]]:
+                        out.append(({"next": "pred-next", "prev": "succ-prev"}.get(kind, kind), x))
+    return out
+
+
+def len_updates(f, sign):
+    """nodes of f that add (sign=+1) / subtract (sign=-1) one to self->len"""
+    out = []
+    for x in walk(f.body):
+        t = None
+        if x.get("k") == "un" and x.get("op") in ("++", "--"):
+            t, sg = X.strip(x["ch"][0]), (1 if x["op"] == "++" else -1)
+        elif x.get("k") == "assign" and x.get("op") in ("+=", "-=") and X.const_val(x["ch"][1]) == 1:
+            t, sg = X.strip(x["ch"][0]), (1 if x["op"] == "+=" else -1)
+        elif x.get("k") == "assign" and x.get("op") == "=":
+            r = X.strip(x["ch"][1])
+            l = X.strip(x["ch"][0])
+            if r.get("k") == "bin" and r.get("op") in ("+", "-") and X.const_val(r["ch"][1]) == 1 and canon_eq(l, r["ch"][0]):
+                t, sg = l, (1 if r["op"] == "+" else -1)
+        if t is not None and t.get("k") == "member" and t.get("n") == "len" and sg == sign:
+            out.append(x)
+    return out
+
+
+def canon_eq(a, b):
+    return X.render(X.strip(a)) == X.render(X.strip(b))
+
+
+# --------------------------------------------------------------------------- L2 unlink effects
+def _if_chain_arms(f, node):
+    """{if-node id: arm} for the if statements enclosing node"""
+    res = {}
+    for anc in f.ancestors(node):
+        if anc.get("k") == "if":
+            inthen = anc["then"] is node or any(y is node for y in walk(anc["then"]))
+            res[anc["i"]] = "then" if inthen else "else"
+    return res
+
+
+def entry_points(prog, unit, iface_names, only=None):
+    """functions of `unit` installed in an interface slot (not the object-protocol slots)"""
+    out = []
+    for t in prog.class_tables():
+        if t.get("unit") != unit:
+            continue
+        for s_, v in t["slots"].items():
+            if isinstance(v, str) and not s_.startswith("parent.") and "." not in s_:
+                f = prog.fn(v)
+                if f is not None and f not in out and (only is None or f.name in only) and "iterator" not in t["type"]:
+                    if not any(it in t["type"] for it in ("spif_class_t",)):
+                        out.append(f)
+    return out
+
+
+def check_unlink_effects(chk, prog, unit, doubly, only=None):
+    """L2: an interface function that takes a node out of the chain (it, or a helper it calls, deletes a node) updates - in the
+    function or its helpers - the predecessor's next (or the link that led to the node), the successor's prev, head and tail;
+    and the head and tail updates are independent (a one-element list is both first and last)"""
+    u = prog.units[unit]
+    delp = deleter_params(u)
+    n = 0
+    for f in entry_points(prog, unit, None, only):
+        clo = unit_closure(f)
+        dels = []
+        for g in clo:
+            dels += [(g, c, e) for c, e in node_deletions(g, delp)]
         if not dels:
             continue
         n += 1
         stores = {"pred-next": [], "succ-prev": [], "head": [], "tail": []}
-        for x in walk(f.body):
-            if x.get("k") != "assign" or x.get("op") != "=":
-                continue
-            for l in store_targets(x):
-                if l.get("k") != "member":
-                    continue
-                b = X.strip(l["ch"][0])
-                if l["n"] == "next" and not (b.get("k") == "ref" and b.get("rk") == "param"):
-                    stores["pred-next"].append(x)
-                if l["n"] == "prev":
-                    stores["succ-prev"].append(x)
-                if l["n"] in ("head", "tail") and b.get("k") == "ref" and b.get("rk") == "param" and b.get("pi") == 0:
-                    stores[l["n"]].append(x)
+        for g in clo:
+            for kind, x in chain_stores(g):
+                stores[kind].append((g, x))
         need = ["pred-next", "head"] + (["succ-prev", "tail"] if doubly else [])
+        g0, c0, _ = dels[0]
         for kind in need:
-            chk.ob("L2", f.name, "unlink-updates:" + kind, bool(stores[kind]), loc=f.loc(dels[0]),
-                   detail="%s unlinks and deletes a node but never updates the %s: %s" % (f.name, {
+            chk.ob("L2", f.name, "unlink-updates:" + kind, bool(stores[kind]), loc=g0.loc(c0),
+                   detail="%s takes a node out of the list but neither it nor its helpers ever update the %s: %s" % (f.name, {
                        "pred-next": "predecessor's next link", "succ-prev": "successor's prev link", "head": "list head", "tail": "list tail"}[kind], {
                        "pred-next": "the chain still reaches the deleted node", "succ-prev": "walking backwards reaches the deleted node",
                        "head": "removing the first element leaves head dangling", "tail": "removing the last element leaves tail dangling"}[kind]),
-                   proof="a store to the %s exists" % kind)
+                   proof="a store to the %s exists in %s" % (kind, ", ".join(sorted({g.name for g, _ in stores[kind]}))))
         if doubly and stores["head"] and stores["tail"]:
-            # first and last are independent: a single element is both, so neither update may sit in the else-arm of the other's test
-            bad = False
-            for hs in stores["head"]:
-                for ts in stores["tail"]:
-                    ha = dict((a["i"], arm) for a, arm in _if_chain_arms(f, hs))
-                    ta = dict((a["i"], arm) for a, arm in _if_chain_arms(f, ts))
+            bad = None
+            for gh, hs in stores["head"]:
+                for gt, ts in stores["tail"]:
+                    if gh is not gt:
+                        continue
+                    ha, ta = _if_chain_arms(gh, hs), _if_chain_arms(gt, ts)
                     for i_ in set(ha) & set(ta):
                         if ha[i_] != ta[i_]:
-                            bad = True
-            chk.ob("L2", f.name, "head-tail-independent", not bad, loc=f.loc(stores["tail"][0]),
+                            bad = (gt, ts)
+            chk.ob("L2", f.name, "head-tail-independent", bad is None, loc=(bad[0].loc(bad[1]) if bad else f.loc(f.body)),
                    detail="%s updates the tail only in the else-arm of the test that updates the head (or vice versa): when the removed node is "
                           "both first and last (a one-element list) one of the two keeps pointing at the deleted node" % f.name,
                    proof="head and tail updates are not in opposite arms of one if")
@@ -139,101 +271,164 @@ def check_unlink_effects(chk, prog, unit, doubly, only=None):
 
 
 # --------------------------------------------------------------------------- L3 insertion effects
+def _link_flow(f, doubly, unit, tracked, entry_new, memo):
+    """forward must-dataflow: for the node held by each tracked decl, is it linked forwards (someone's next / head / *link) and
+    backwards (someone's prev / tail) and has len been incremented, at every success return?  Returns [(return node, decl, fwd, bwd, len)]"""
+    cfg = nullness.prepared_cfg(f, NORETURN)
+    lp = link_pointers(f)
+    results = []
+    lenplus = {x["i"] for x in len_updates(f, +1)}
+
+    def is_t(e, d):
+        s_ = X.strip(e)
+        return s_ is not None and s_.get("k") == "ref" and s_.get("d") == d
+
+    def transfer(state, x, blk):
+        st = state
+        if x.get("k") == "assign" and x.get("op") == "=":
+            l0 = X.strip(x["ch"][0])
+            rr = X.strip(x["ch"][1])
+            if l0.get("k") == "ref" and l0.get("d") in tracked and rr.get("k") == "call" and re.search(r"_item_new$", X.callee_name(rr) or ""):
+                st = (st - {("fwd", l0["d"]), ("bwd", l0["d"])}) | {("new", l0["d"])}
+            r = final_rhs(x)
+            for d in tracked:
+                if is_t(r, d):
+                    for l in store_targets(x):
+                        if l.get("k") == "member":
+                            if l["n"] in ("next", "head"):
+                                st = st | {("fwd", d)}
+                            if l["n"] in ("prev", "tail"):
+                                st = st | {("bwd", d)}
+                        if l.get("k") == "un" and l.get("op") == "*":
+                            t = X.strip(l["ch"][0])
+                            if t.get("k") == "ref" and t.get("d") in lp:
+                                if lp[t["d"]] & {"head", "next"}:
+                                    st = st | {("fwd", d)}
+                                if lp[t["d"]] & {"tail", "prev"}:
+                                    st = st | {("bwd", d)}
+        if x["i"] in lenplus:
+            st = st | {("len++",)}
+        if x.get("k") == "call":
+            cn = X.callee_name(x) or ""
+            h = unit.functions.get(cn)
+            if h is not None and h is not f and h.cfg is not None and not re.search(r"_item_(new|del|set_data|get_data)$", cn):
+                args = x["ch"][1:]
+                for j, a in enumerate(args):
+                    for d in tracked:
+                        if is_t(a, d) and j < len(h.params):
+                            fw, bw, ln = helper_link_summary(h, j, doubly, unit, memo)
+                            if fw:
+                                st = st | {("fwd", d)}
+                            if bw:
+                                st = st | {("bwd", d)}
+                            if ln:
+                                st = st | {("len++",)}
+        return st
+
+    def visit(state, x, blk):
+        if x.get("k") == "return":
+            val = x.get("val")
+            cv = X.const_val(val) if val is not None else 1
+            refusing = val is not None and (cv == 0 or X.is_null_const(val))
+            if not refusing:
+                for d in tracked:
+                    if ("new", d) in state:
+                        results.append((x, d, ("fwd", d) in state, ("bwd", d) in state, ("len++",) in state))
+    init = frozenset(("new", d) for d in entry_new)
+    ins = flow.forward(cfg, init, transfer, visit=visit)
+    # a helper that falls off its end (void): the state flowing into the exit block counts as its (only) success return
+    st = ins.get(cfg.exit)
+    if st is not None and not any(x.get("k") == "return" for x in walk(f.body)):
+        for d in tracked:
+            if ("new", d) in st:
+                results.append((f.body, d, ("fwd", d) in st, ("bwd", d) in st, ("len++",) in st))
+    return results
+
+
+def helper_link_summary(h, j, doubly, unit, memo):
+    key = (h.name, j)
+    if key in memo:
+        return memo[key]
+    memo[key] = (False, False, False)
+    d = h.params[j]["d"]
+    res = _link_flow(h, doubly, unit, {d}, {d}, memo)
+    if not res:
+        out = (False, False, False)
+    else:
+        out = (all(r[2] for r in res), all(r[3] for r in res), all(r[4] for r in res))
+    memo[key] = out
+    return out
+
+
 def check_insert_effects(chk, prog, unit, doubly, only=None):
-    """every node created by the function is, on every path to a success return, linked forwards (someone's next / head)
-    and - doubly linked - backwards (someone's prev / tail); len is incremented when a node is linked in"""
+    """L3/L5: every node an interface function creates is, on every path to a success return, linked forwards (someone's next,
+    the head, or the link that is being followed) and - doubly linked - backwards (someone's prev or the tail), in the function
+    or in a helper it hands the node to; len is incremented on those paths"""
     u = prog.units[unit]
     n = 0
+    memo = {}
     for f in u.functions.values():
-        news = {}
+        if only is not None and f.name not in only:
+            continue
+        if re.search(r"_dup$|_item_", f.name):
+            continue
+        news = set()
         for x in walk(f.body):
             if x.get("k") == "assign" and x.get("op") == "=":
                 r = X.strip(x["ch"][1])
                 l = X.strip(x["ch"][0])
                 if r.get("k") == "call" and re.search(r"_item_new$", X.callee_name(r) or "") and l.get("k") == "ref" and l.get("rk") == "local":
-                    news[l["d"]] = x
-        if not news or re.search(r"_dup$|_item_dup$", f.name) or (only is not None and f.name not in only):
+                    news.add(l["d"])
+        if not news:
             continue
-        cfg = nullness.prepared_cfg(f, NORETURN)
         n += 1
-        results = []
-
-        def rhs_is(e, d):
-            s = X.strip(e)
-            return s.get("k") == "ref" and s.get("d") == d
-
-        def transfer(state, x, blk):
-            if x.get("k") == "assign" and x.get("op") == "=":
-                st = set(state)
-                r = final_rhs(x)
-                l0 = X.strip(x["ch"][0])
-                rr = X.strip(x["ch"][1])
-                if l0.get("k") == "ref" and l0.get("d") in news and rr.get("k") == "call":
-                    st.add(("new", l0["d"]))
-                    st.discard(("fwd", l0["d"]))
-                    st.discard(("bwd", l0["d"]))
-                for d in news:
-                    if rhs_is(r, d):
-                        for l in store_targets(x):
-                            if l.get("k") == "member":
-                                if l["n"] in ("next", "head"):
-                                    st.add(("fwd", d))
-                                if l["n"] in ("prev", "tail"):
-                                    st.add(("bwd", d))
-                                if l["n"] == "head" and not doubly:
-                                    st.add(("fwd", d))
-                return frozenset(st)
-            if x.get("k") == "un" and x.get("op") == "++" or (x.get("k") == "assign" and x.get("op") == "+="):
-                t = X.strip(x["ch"][0])
-                if t.get("k") == "member" and t.get("n") == "len":
-                    return state | {("len++",)}
-            return state
-
-        def visit(state, x, blk):
-            if x.get("k") == "return" and x.get("val") is not None:
-                cv = X.const_val(x["val"])
-                if cv is not None and cv != 0 or (cv is None and X.strip(x["val"]).get("k") != "call"):
-                    for d in news:
-                        if ("new", d) in state:
-                            results.append((x, d, ("fwd", d) in state, ("bwd", d) in state, ("len++",) in state))
-        flow.forward(cfg, frozenset(), transfer, visit=visit)
-        okf = all(r[2] for r in results)
-        okb = all(r[3] for r in results) if doubly else True
-        okl = all(r[4] for r in results)
+        results = _link_flow(f, doubly, u, news, set(), memo)
         loc = f.loc(results[0][0]) if results else f.loc(f.body)
         badf = [r for r in results if not r[2]]
         badb = [r for r in results if not r[3]]
-        chk.ob("L3", f.name, "new-node-forward-linked", okf, loc=f.loc(badf[0][0]) if badf else loc,
-               detail="%s returns success on a path on which the node it created is neither stored as some node's next nor as the head: "
-                      "the element is not in the chain" % f.name, proof="on every success path the new node becomes someone's next / the head")
+        badl = [r for r in results if not r[4]]
+        chk.ob("L3", f.name, "new-node-forward-linked", not badf, loc=f.loc(badf[0][0]) if badf else loc,
+               detail="%s returns success on a path on which the node it created is neither stored as some node's next nor as the head "
+                      "(in the function or a helper it passes the node to): the element is not in the chain" % f.name,
+               proof="on every success path the new node becomes someone's next / the head")
         if doubly:
-            chk.ob("L3", f.name, "new-node-backward-linked", okb, loc=f.loc(badb[0][0]) if badb else loc,
+            chk.ob("L3", f.name, "new-node-backward-linked", not badb, loc=f.loc(badb[0][0]) if badb else loc,
                    detail="%s returns success on a path on which the node it created is neither stored as some node's prev nor as the tail: "
                           "backward walks and the tail pointer miss the new last/only element" % f.name,
                    proof="on every success path the new node becomes someone's prev / the tail")
-        chk.ob("L5", f.name, "len-incremented", okl, loc=loc,
+        chk.ob("L5", f.name, "len-incremented", not badl, loc=f.loc(badl[0][0]) if badl else loc,
                detail="%s links a new node in without incrementing len on some path: count and chain length disagree" % f.name,
-               proof="len++ on every success path that created a node")
+               proof="len + 1 on every success path that created a node")
     return n
 
 
 def check_len_on_remove(chk, prog, unit, only=None):
+    """L5: an interface function that takes a node out decrements len (itself or in a helper)"""
     u = prog.units[unit]
+    delp = deleter_params(u)
     n = 0
-    for slot in ("remove", "remove_at"):
-        for f in classinfo.functions_in_slot(prog, slot):
-            if f.unit.name != unit or (only is not None and f.name not in only):
-                continue
-            cfg = nullness.prepared_cfg(f, NORETURN)
-            dels = [c for c in X.calls_in(f.body) if own.release_kind(c) == "del" and "item" in (X.callee_name(c) or "")]
-            if not dels:
-                continue
-            n += 1
-            decs = [x for x in walk(f.body) if (x.get("k") == "un" and x.get("op") == "--" or (x.get("k") == "assign" and x.get("op") == "-="))
-                    and X.strip(x["ch"][0]).get("n") == "len"]
-            ok = all(any(cfg.node_dominates(d["i"], x["i"]) or cfg.node_dominates(x["i"], d["i"]) for x in decs) for d in dels) and bool(decs)
-            chk.ob("L5", f.name, "len-decremented", ok, loc=f.loc(dels[0]),
-                   detail="%s deletes a node without decrementing len on that path" % f.name, proof="len-- on the path of every node deletion")
+    for f in entry_points(prog, unit, None, only):
+        clo = unit_closure(f)
+        dels = []
+        for g in clo:
+            dels += [(g, c) for c, e in node_deletions(g, delp)]
+        if not dels:
+            continue
+        n += 1
+        decs = []
+        for g in clo:
+            decs += [(g, x) for x in len_updates(g, -1)]
+        # each function of the closure that deletes must either decrement on the path of the deletion or be called by one that does
+        ok = bool(decs)
+        if ok:
+            for g, c in dels:
+                mine = [x for gg, x in decs if gg is g]
+                if mine:
+                    cfg = nullness.prepared_cfg(g, NORETURN)
+                    if not any(cfg.node_dominates(c["i"], x["i"]) or cfg.node_dominates(x["i"], c["i"]) for x in mine):
+                        ok = False
+        chk.ob("L5", f.name, "len-decremented", ok, loc=dels[0][0].loc(dels[0][1]),
+               detail="%s takes a node out without decrementing len on that path" % f.name, proof="len - 1 on the path of every node deletion")
     return n
 
 
@@ -574,7 +769,16 @@ def check_positions(chk, prog, unit):
         g.run()
         return g
 
-    def ob(rule, f, site, ok, node, detail, proof):
+    n_und = [0]
+
+    def ob(g, st, rule, f, site, ok, node, detail, proof, exprs=()):
+        """an obligation that fails only because it depends on a value produced by code this analysis has no model of (a walk
+        moved into a helper, an accessor call) is undecided: counted, never reported"""
+        if not ok:
+            sts = st if isinstance(st, list) else [st]
+            if any(g.tainted(s_) for s_ in sts if s_ is not None) or any(g.mentions_unknown(e) for e in exprs) or g.mentions_unknown(node):
+                n_und[0] += 1
+                return
         n_ob[0] += 1
         chk.ob(rule, f.name, site, ok, loc=f.loc(node), detail=detail, proof=proof)
 
@@ -630,13 +834,13 @@ def check_positions(chk, prog, unit):
                 if len(a) >= 2 and X.strip(a[1]).get("d") == objd and g.is_self(a[0]):
                     if app is not None and cn == app.name:
                         ok = g.proves_eq(st, idx, L)
-                        ob("P1", f, "append-delegation-at-end", ok, n,
+                        ob(g, st, "P1", f, "append-delegation-at-end", ok, n,
                            "%s hands the element to %s() on a path where the normalised position is not known to equal the length "
                            "(state: %s): the element lands at the end instead of at idx" % (f.name, cn, show(st)[:160]),
                            "idx == len entailed at the call")
                     if pre is not None and cn == pre.name:
                         ok = g.proves_eq(st, idx, Lin.const(0))
-                        ob("P1", f, "prepend-delegation-at-zero", ok, n,
+                        ob(g, st, "P1", f, "prepend-delegation-at-zero", ok, n,
                            "%s hands the element to %s() on a path where the normalised position is not known to be 0 (state: %s): "
                            "the element lands in front (and no NULL placeholders are created) instead of at idx" % (f.name, cn, show(st)[:160]),
                            "idx == 0 entailed at the call")
@@ -647,24 +851,25 @@ def check_positions(chk, prog, unit):
                         if l.get("k") == "member" and l.get("n") == "next":
                             p = g.pos(l["ch"][0])
                             ok = p is not None and g.proves_eq(st, p + 1, idx)
-                            ob("P1", f, "splice-position:" + canon(f, l)[:30], ok, n,
+                            ob(g, st, "P1", f, "splice-position:" + canon(f, l)[:30], ok, n,
                                "%s links the new node after %s, whose position is not provably idx-1 (state: %s): the element is "
                                "inserted at the wrong place" % (f.name, X.render(l["ch"][0])[:30], show(st)[:200]),
                                "position(%s) + 1 == idx entailed" % X.render(l["ch"][0])[:30])
                         if g.self_field(l) == "head":
                             ok = g.proves_eq(st, idx, Lin.const(0))
-                            ob("P1", f, "head-splice-at-zero", ok, n, "%s makes the new node the head although idx is not known to be 0" % f.name, "idx == 0")
+                            ob(g, st, "P1", f, "head-splice-at-zero", ok, n, "%s makes the new node the head although idx is not known to be 0" % f.name, "idx == 0")
                 if linked is False:
                     l0 = X.strip(n["ch"][0])
                     if l0.get("k") == "index" and g.self_field(l0["ch"][0]) == "items" and X.strip(n["ch"][1]).get("d") == objd:
                         e = g.lin(l0["ch"][1])
                         ok = e is not None and g.proves_eq(st, e, idx)
-                        ob("P1", f, "store-position", ok, n, "%s stores the element at %s, not provably idx" % (f.name, X.render(l0)[:30]), "slot index == idx")
+                        ob(g, st, "P1", f, "store-position", ok, n, "%s stores the element at %s, not provably idx" % (f.name, X.render(l0)[:30]), "slot index == idx")
             if n["i"] in refusals and refusals[n["i"]][0]["i"] not in done:
                 arm, cv = refusals[n["i"]]
                 done.add(arm["i"])
-                ok = all(not g.compatible(s_, [idx]) for s_ in g.states_before(n["i"]))
-                ob("P4", f, "refuses-only-negative", ok, arm,
+                sts_ = g.states_before(n["i"])
+                ok = all(not g.compatible(s_, [idx]) for s_ in sts_)
+                ob(g, sts_, "P4", f, "refuses-only-negative", ok, arm,
                    "%s can return FALSE although the normalised position is >= 0 (state: %s): an insertion the ideal sequence "
                    "accepts is refused" % (f.name, show(st)[:200]), "the refusing return is unreachable with idx >= 0")
         g.visit(v_ins)
@@ -696,14 +901,14 @@ def check_positions(chk, prog, unit):
                     what = X.render(n)
                 if tgt is not None or (n.get("k") == "index" and g.self_field(n["ch"][0]) == "items"):
                     ok = tgt is not None and g.proves_eq(st, tgt, idx)
-                    ob("P2", f, "returns-element-at-idx", ok, n,
+                    ob(g, st, "P2", f, "returns-element-at-idx", ok, n,
                        "%s reads the element through %s, whose position is not provably idx (state: %s): a neighbour is returned" % (
                            f.name, what[:30], show(st)[:200]), "position == idx entailed")
             else:
                 if n.get("k") == "call" and re.search(r"_item_del$", X.callee_name(n) or ""):
                     tgt = g.pos(n["ch"][1])
                     ok = tgt is not None and g.proves_eq(st, tgt, idx)
-                    ob("P3", f, "removes-node-at-idx", ok, n,
+                    ob(g, st, "P3", f, "removes-node-at-idx", ok, n,
                        "%s deletes %s, whose position before the unlink is not provably idx (state: %s)" % (f.name, X.render(n["ch"][1])[:30], show(st)[:200]),
                        "position == idx entailed")
                 if n.get("k") == "assign" and n.get("op") == "=" and not linked:
@@ -711,12 +916,13 @@ def check_positions(chk, prog, unit):
                     if r.get("k") == "index" and g.self_field(r["ch"][0]) == "items":
                         e = g.lin(r["ch"][1])
                         ok = e is not None and g.proves_eq(st, e, idx)
-                        ob("P3", f, "removes-slot-at-idx", ok, n, "%s takes out %s, not provably slot idx" % (f.name, X.render(r)[:30]), "slot == idx")
+                        ob(g, st, "P3", f, "removes-slot-at-idx", ok, n, "%s takes out %s, not provably slot idx" % (f.name, X.render(r)[:30]), "slot == idx")
             if n["i"] in refusals and refusals[n["i"]][0]["i"] not in done:
                 arm, cv = refusals[n["i"]]
                 done.add(arm["i"])
-                ok = all(not g.compatible(s_, [idx, L - 1 - idx]) for s_ in g.states_before(n["i"]))
-                ob("P4", f, "refuses-only-out-of-range", ok, arm,
+                sts_ = g.states_before(n["i"])
+                ok = all(not g.compatible(s_, [idx, L - 1 - idx]) for s_ in sts_)
+                ob(g, sts_, "P4", f, "refuses-only-out-of-range", ok, arm,
                    "%s can return NULL although 0 <= idx < len (state: %s): a position the ideal sequence has is refused" % (f.name, show(st)[:200]),
                    "the NULL result is unreachable with idx in range")
         g.visit(v_get)
@@ -736,7 +942,7 @@ def check_positions(chk, prog, unit):
                 c = X.strip(par["ch"][0])
                 p = g.pos(c)
                 ok = p is not None and g.proves_eq(st, Lin.sym("v%d" % n["d"]), p)
-                ob("P5", f, "index-is-position", ok, n, "%s reports a counter that is not provably the position of the matching node (state: %s)" % (
+                ob(g, st, "P5", f, "index-is-position", ok, n, "%s reports a counter that is not provably the position of the matching node (state: %s)" % (
                     f.name, show(st)[:200]), "counter == position(node)")
         g.visit(v_idx)
 
@@ -757,7 +963,7 @@ def check_positions(chk, prog, unit):
                         if y.get("k") == "member" and y.get("n") == "data":
                             src = g.pos(y["ch"][0])
                     ok = e is not None and src is not None and g.proves_eq(st, e, src)
-                    ob("P5", f, "to-array-slot-is-position", ok, n, "%s fills a slot whose index is not provably the node's position (state: %s)" % (
+                    ob(g, st, "P5", f, "to-array-slot-is-position", ok, n, "%s fills a slot whose index is not provably the node's position (state: %s)" % (
                         f.name, show(st)[:200]), "slot == position(node)")
         g.visit(v_arr)
     return n_ob[0]
@@ -848,13 +1054,18 @@ def iface_functions(prog, iface, units=UNITS, with_parent=False):
 
 
 def check_iterators(chk, prog, units=UNITS):
-    """I1 the cursor starts at the first element; I2 next() returns the element under the cursor and advances exactly one step
-    on every successful path, reading before advancing; I3 has_next() is TRUE exactly while the cursor is inside the sequence"""
+    """I1 the cursor starts at the first element; I2 next() hands back the element under the cursor as it was on entry and
+    leaves the cursor exactly one element further on every successful path; I3 has_next() is true exactly while the cursor is
+    inside the sequence.  Decided with the GHOSTPOS engine: the cursor field is a symbol (`cur` for an index cursor, the
+    ghost position `pc` for a node cursor), locals copied from it are tracked exactly, so the verdict does not depend on how
+    the function is written (temporaries, `x = x + 1`, a conditional expression as the return value)."""
+    from .ghostpos import GhostPos
+    from .lin import Lin, entails
     n = 0
     for t in prog.class_tables():
         if IFACE["iterator"] not in t["type"] or t.get("unit") not in units:
             continue
-        slots = {s.split(".")[-1]: prog.fn(v) for s, v in t["slots"].items() if isinstance(v, str)}
+        slots = {s_.split(".")[-1]: prog.fn(v) for s_, v in t["slots"].items() if isinstance(v, str)}
         init, nxt, has = slots.get("init"), slots.get("next"), slots.get("has_next")
         if init is None or nxt is None or has is None:
             raise AnalysisBroken("iterator table %s lacks init/next/has_next" % t.get("var"))
@@ -862,121 +1073,141 @@ def check_iterators(chk, prog, units=UNITS):
         # the cursor field: the field of self that next() stores to
         cur = None
         for x in walk(nxt.body):
-            if x.get("k") in ("assign", "un"):
+            if x.get("k") in ("assign", "un") and x.get("op") in ("=", "+=", "++", "-=", "--"):
                 l = X.strip(x["ch"][0])
-                if l.get("k") == "member" and l.get("arrow") and X.strip(l["ch"][0]).get("pi") == 0 and X.strip(l["ch"][0]).get("rk") == "param":
-                    cur = l["n"]
+                if l.get("k") == "member" and l.get("arrow"):
+                    b = X.strip(l["ch"][0])
+                    if b.get("rk") == "param" and b.get("pi") == 0:
+                        cur = l["n"]
         chk.ob("I2", nxt.name, "advances-cursor", cur is not None, loc=nxt.loc(nxt.body),
                detail="%s never moves the iterator's cursor: iteration yields the first element forever" % nxt.name, proof="a store to the cursor field exists")
         if cur is None:
             continue
         index_cursor = cur.endswith("index")
-        # I1
-        ok = False
-        for x in walk(init.body):
-            if x.get("k") == "assign" and x.get("op") == "=":
-                l = X.strip(x["ch"][0])
-                if l.get("k") == "member" and l.get("n") == cur:
-                    r = X.strip(x["ch"][1])
-                    if index_cursor and X.const_val(r) == 0:
-                        ok = True
-                    if not index_cursor and r.get("k") == "member" and r.get("n") == "head":
-                        ok = True
-        chk.ob("I1", init.name, "starts-at-first", ok, loc=init.loc(init.body),
-               detail="%s does not set the cursor (%s) to the first element (%s)" % (init.name, cur, "index 0" if index_cursor else "subject->head"),
-               proof="cursor := first element")
-        # I2: on every path to a return of a non-constant value there is exactly one advance, and the element read precedes it
-        cfg = nullness.prepared_cfg(nxt, NORETURN)
+        CUR = Lin.sym("cur")
 
-        def is_cur(e):
-            s = X.strip(e)
-            return s is not None and s.get("k") == "member" and s.get("n") == cur and X.strip(s["ch"][0]).get("rk") == "param"
+        class IterPos(GhostPos):
+            """self is the iterator: `cur` is the cursor (an index, or the ghost position of the node it points at); `len` is
+            the subject's length"""
+            def is_cur(self, e):
+                s_ = X.strip(e)
+                return s_ is not None and s_.get("k") == "member" and s_.get("n") == cur and self.is_self(s_["ch"][0])
 
-        def tr(state, x, blk):
-            adv, rd = state
-            if x.get("k") == "assign" and is_cur(x["ch"][0]):
-                r = X.strip(x["ch"][1])
-                step = False
-                if x.get("op") == "=" and r.get("k") == "member" and r.get("n") == "next" and is_cur(r["ch"][0]):
-                    step = True
-                if x.get("op") == "+=" and X.const_val(r) == 1:
-                    step = True
-                if x.get("op") == "=" and r.get("k") == "bin" and r.get("op") == "+" and is_cur(r["ch"][0]) and X.const_val(r["ch"][1]) == 1:
-                    step = True
-                return (adv + 1 if step else 99, rd)
-            if x.get("k") == "un" and x.get("op") in ("++", "--") and is_cur(x["ch"][0]):
-                return (adv + 1 if x["op"] == "++" else 99, rd)
-            # the element read: self->current->data, or get(subject, self->current_index)
-            if x.get("k") == "member" and x.get("n") == "data" and is_cur(x["ch"][0]):
-                return (adv, rd if adv else rd + 1)
-            if x.get("k") == "call" and any(is_cur(a) for a in x["ch"][1:]) and re.search(r"_get$|_get_data$", X.callee_name(x) or ""):
-                return (adv, rd if adv else rd + 1)
-            return state
-        res = []
+            def lin(self, e):
+                s_ = X.strip(e)
+                if index_cursor and self.is_cur(s_):
+                    return CUR
+                if s_ is not None and s_.get("k") == "member" and s_.get("n") == "len":
+                    return Lin.sym("len")
+                return GhostPos.lin(self, e)
 
-        def vis(state, x, blk):
+            def pos(self, e):
+                s_ = X.strip(e)
+                if not index_cursor and self.is_cur(s_):
+                    return CUR
+                if s_ is not None and s_.get("k") == "member" and s_.get("n") == "head" and not self.is_self(s_["ch"][0]):
+                    return Lin.const(0)
+                return GhostPos.pos(self, e)
+
+            def ptr_fact(self, cons, e, isnull):
+                s_ = X.strip(e)
+                if not index_cursor and self.is_cur(s_):
+                    # a node cursor walks forwards only: NULL means it ran off the end
+                    L_ = Lin.sym("len")
+                    return [CUR - L_, L_ - CUR] if isnull else [CUR, L_ - 1 - CUR]
+                if s_ is not None and s_.get("k") == "ref" and s_.get("d") in self.ptrvars:
+                    return GhostPos.ptr_fact(self, cons, e, isnull)
+                return None if isnull else []          # NULL iterator / subject: refusals outside the protocol
+
+            def transfer(self, cons, x, blk=None):
+                if x.get("k") == "assign" and self.is_cur(x["ch"][0]):
+                    op = x.get("op")
+                    r = (self.lin if index_cursor else self.pos)(x["ch"][1])
+                    if op == "=":
+                        return self.assign_sym(cons, "cur", r)
+                    if op in ("+=", "-=") and index_cursor and r is not None:
+                        return self.assign_sym(cons, "cur", CUR + r if op == "+=" else CUR - r)
+                    return self.assign_sym(cons, "cur", None)
+                if x.get("k") == "un" and x.get("op") in ("++", "--") and self.is_cur(x["ch"][0]):
+                    return self.assign_sym(cons, "cur", CUR + (1 if x["op"] == "++" else -1))
+                return GhostPos.transfer(self, cons, x, blk)
+
+        C0 = Lin.sym("cur0")
+        entry = [Lin.sym("len"), CUR - C0, C0 - CUR, C0]
+        # ---- I1
+        gi = IterPos(init, prog)
+        gi.run([Lin.sym("len")])
+        ok1 = []
+
+        def v1(st, x, blk):
+            if x.get("k") == "return" and x.get("val") is not None and X.const_val(x["val"]) == 1:
+                ok1.append(entails(list(st), CUR) and entails(list(st), -CUR))
+        gi.visit(v1)
+        chk.ob("I1", init.name, "starts-at-first", bool(ok1) and all(ok1), loc=init.loc(init.body),
+               detail="%s does not leave the cursor (%s) on the first element (%s) on every successful path" % (
+                   init.name, cur, "index 0" if index_cursor else "subject->head"), proof="cursor == first element entailed at the successful return")
+        # ---- I2
+        gn = IterPos(nxt, prog)
+        gn.run(entry)
+        step, read = [], []
+
+        def v2(st, x, blk):
             if x.get("k") == "return" and x.get("val") is not None and X.const_val(x["val"]) is None and not X.is_null_const(x["val"]):
-                res.append((x, state))
-        flow.forward(cfg, (0, 0), tr, join=lambda a, b: a if a == b else (98, min(a[1], b[1])), visit=vis)
-        okadv = bool(res) and all(s[0] == 1 for _, s in res)
-        okrd = bool(res) and all(s[1] >= 1 for _, s in res)
-        chk.ob("I2", nxt.name, "one-step-per-call", okadv, loc=nxt.loc(res[0][0]) if res else nxt.loc(nxt.body),
-               detail="%s does not advance the cursor by exactly one element on every successful path: elements are skipped or repeated" % nxt.name,
-               proof="exactly one `cursor = cursor->next` / `cursor++` before the return")
-        chk.ob("I2", nxt.name, "reads-before-advancing", okrd, loc=nxt.loc(res[0][0]) if res else nxt.loc(nxt.body),
-               detail="%s does not read the element under the cursor before moving it: the first element is skipped" % nxt.name,
-               proof="the element is read through the un-advanced cursor")
-        # I3
-        cfg = nullness.prepared_cfg(has, NORETURN)
+                step.append((x, GhostPos.proves_eq(st, CUR, C0 + 1), gn.tainted(st)))
+            # the element read: get(subject, E) / E->data
+            tgt = None
+            if x.get("k") == "call" and re.search(r"_get$", X.callee_name(x) or "") and len(x["ch"]) >= 3:
+                tgt = gn.lin(x["ch"][2])
+            if x.get("k") == "member" and x.get("n") == "data" and x.get("arrow"):
+                par = nxt.parent.get(x["i"])
+                if not (par is not None and par.get("k") == "assign" and par["ch"][0] is x):
+                    tgt = gn.pos(x["ch"][0])
+            if x.get("k") == "call" and re.search(r"_item_get_data$", X.callee_name(x) or ""):
+                tgt = gn.pos(x["ch"][1])
+            if tgt is not None:
+                read.append((x, GhostPos.proves_eq(st, tgt, C0)))
+        gn.visit(v2)
+        bad = [x for x, ok, und in step if not ok and not und]
+        chk.ob("I2", nxt.name, "one-step-per-call", bool(step) and not bad, loc=nxt.loc(bad[0]) if bad else nxt.loc(nxt.body),
+               detail="%s does not leave the cursor exactly one element past where it was on every successful path: elements are skipped "
+                      "or repeated" % nxt.name, proof="cursor == cursor-on-entry + 1 entailed at every successful return")
+        badr = [x for x, ok in read if not ok]
+        chk.ob("I2", nxt.name, "yields-element-under-cursor", not badr, loc=nxt.loc(badr[0]) if badr else nxt.loc(nxt.body),
+               detail="%s reads an element other than the one the cursor pointed at on entry (e.g. it advances first): an element is skipped" % nxt.name,
+               proof="%d element read(s) at the entry position" % len(read))
+        # ---- I3
+        gh = IterPos(has, prog)
+        gh.run([Lin.sym("len"), CUR] if index_cursor else [Lin.sym("len"), CUR, Lin.sym("len") - CUR])
+        Ln = Lin.sym("len")
         rets = []
-        if index_cursor:
-            from .ghostpos import GhostPos
-            from .lin import Lin
 
-            class IterPos(GhostPos):
-                def lin(self, e):
-                    s = X.strip(e)
-                    if s is not None and s.get("k") == "member" and s.get("n") == cur:
-                        return Lin.sym("cur")
-                    if s is not None and s.get("k") == "member" and s.get("n") == "len":
-                        return Lin.sym("len")
-                    return GhostPos.lin(self, e)
-
-                def ptr_fact(self, cons, e, isnull):
-                    return None if isnull else []
-            g = IterPos(has, prog)
-            g.run()
-            C, Ln = Lin.sym("cur"), Lin.sym("len")
-
-            def v3(st, x, blk):
-                if x.get("k") == "return" and x.get("val") is not None:
-                    cv = X.const_val(x["val"])
-                    if cv == 1:
-                        rets.append((x, entails_(st, Ln - 1 - C), "TRUE although the cursor is not known to be below len"))
-                    elif cv == 0:
-                        rets.append((x, all(not g.compatible(s_, [Ln - 1 - C]) for s_ in g.states_before(x["i"])), "FALSE although cursor < len is possible"))
-
-            def entails_(st, goal):
-                from .lin import entails
-                return entails(list(st), goal)
-            g.visit(v3)
-        else:
-            def v3(state, x, blk):
-                if x.get("k") == "return" and x.get("val") is not None:
-                    cv = X.const_val(x["val"])
-                    curfacts = [f_ for f_ in state if f_[0] in ("nn", "null") and f_[1].endswith("->" + cur)]
-                    otherf = [f_ for f_ in state if f_[0] == "null" and not f_[1].endswith("->" + cur)]
-                    if otherf:
-                        return              # refusal for a NULL iterator / subject
-                    if cv == 1:
-                        rets.append((x, any(f_[0] == "nn" for f_ in curfacts), "TRUE although the cursor was not tested non-NULL"))
-                    elif cv == 0:
-                        rets.append((x, any(f_[0] == "null" for f_ in curfacts), "FALSE although the cursor was not found NULL"))
-            flow.forward(cfg, frozenset(), nullness.transfer, refine=nullness.refine, visit=v3)
-        chk.ob("I3", has.name, "has-both-answers", len({X.const_val(r[0]["val"]) for r in rets}) == 2, loc=has.loc(has.body),
-               detail="%s cannot answer both TRUE and FALSE about the cursor" % has.name, proof="a TRUE and a FALSE return decided by the cursor")
-        for x, ok, why in rets:
-            chk.ob("I3", has.name, "exhaustion-exact:%s" % ("TRUE" if X.const_val(x["val"]) == 1 else "FALSE"), ok, loc=has.loc(x),
-                   detail="%s returns %s: exhaustion is reported at the wrong time (after count elements exactly is required)" % (has.name, why),
+        def v3(st, x, blk):
+            if x.get("k") == "return" and x.get("val") is not None:
+                val = x["val"]
+                cv = X.const_val(val)
+                if cv is not None:
+                    cases = [(bool(cv), gh.states_before(x["i"]))]
+                else:
+                    cases = []
+                    for truth in (True, False):
+                        r = [gh.refine(s_, val, truth) for s_ in gh.states_before(x["i"])]
+                        cases.append((truth, [s_ for s_ in r if s_ is not None]))
+                for truth, sts in cases:
+                    if not sts:
+                        continue
+                    if truth:
+                        ok = all(entails(list(s_), Ln - 1 - CUR) for s_ in sts)
+                        why = "TRUE although the cursor is not known to be inside the sequence"
+                    else:
+                        ok = all(not gh.compatible(s_, [Ln - 1 - CUR, CUR]) for s_ in sts)
+                        why = "FALSE although the cursor may still be inside the sequence"
+                    rets.append((x, truth, ok, why))
+        gh.visit(v3)
+        answers = {t_ for _, t_, _, _ in rets}
+        chk.ob("I3", has.name, "has-both-answers", answers == {True, False}, loc=has.loc(has.body),
+               detail="%s cannot answer both TRUE and FALSE about the cursor" % has.name, proof="a TRUE and a FALSE outcome decided by the cursor")
+        for x, truth, ok, why in rets:
+            chk.ob("I3", has.name, "exhaustion-exact:%s" % ("TRUE" if truth else "FALSE"), ok, loc=has.loc(x),
+                   detail="%s answers %s: exhaustion is reported at the wrong time (exactly after count elements is required)" % (has.name, why),
                    proof="the answer follows from the cursor test")
     return n
